@@ -743,6 +743,13 @@ states.truncate(states.len() - {num_fields});
     }
 
     fn get_quasiterminal_kind_from_terminal_match_arms_src(&self) -> String {
+        if self.file.terminal_enum.variants.is_empty() {
+            // The match scrutinee is a reference, and a reference
+            // to an empty enum is still considered inhabited.
+            // Therefore, an empty match would not compile.
+            return "t => match *t {},".to_owned();
+        }
+
         let terminal_enum_name = &self.terminal_enum_name;
         self.file
             .terminal_enum
